@@ -248,6 +248,8 @@ def apply_history(psy, ops, counters=None):
             break
         if counters is not None:
             counters.inc2("transformations", kind + ":" + out[-1][1])
+            if out[-1][1] == "refused":
+                counters.inc2("faults_fired", "refusal")
     return out
 
 
@@ -372,6 +374,7 @@ def run_scenario(scn, ops, setup, cfgs, counters=None, digests=None):
         for cfg in (cfgs if stage == "after-history" else cfgs[:1]):
             events, info = simulate(scn, res["code"], setup, cfg)
             if counters is not None:
+                counters.inc("scheduler_steps", info["steps"])
                 counters.inc("simulated_executions")
                 counters.inc("kernel_calls_recorded", len(events))
                 counters.inc("thread_switches", info["switches"])
@@ -481,6 +484,7 @@ def run_one(seed, index, tier):
         counters.inc2("aborted_internal_error", type(err).__name__)
         out["log_digest"] = digest(["abort", type(err).__name__, str(err)])
         return out
+    out["steps"] = counters.get("scheduler_steps", 0)
     if out["digests"]:
         out["digest"] = digest(sorted(out["digests"]))
     if bad:
